@@ -182,3 +182,61 @@ package core
 //@   invariant node:      n != nil ==> toplevel(n) && n.owner == nil && linked(u, n) && !n.inPool && !n.link.inPool && n != n.link
 //@   invariant done:      n == nil ==> len(f.l.elems) == 0
 //@   invariant others:    forall g *core.file :: old(g.gtx) != nil && old(g.gtx) != &u.allStore && old(g.gtx) != tx ==> g.l.elems == old(g.l.elems)
+
+
+// ---- old-version collection (GC): for every key of the transaction, the versions that have a successor
+// not newer than the horizon are unlinked (from the transaction's list and from the all-store) and
+// returned for deletion; the newest version of a key always stays; nothing else changes. ----
+//@ pure func collectedF(g *core.file, h int) bool =
+//@     len(g.l.elems) <= len(old(g.l.elems)) && g.l.elems == old(g.l.elems)[len(old(g.l.elems)) - len(g.l.elems):] &&
+//@     (forall i int :: 0 <= i && i < len(old(g.l.elems)) - len(g.l.elems) ==> old(g.l.elems[i+1].v.Seq) <= h) &&
+//@     (len(old(g.l.elems)) > 0 ==> len(g.l.elems) >= 1)
+
+//@ func (*UseCase).DeleteOld
+//@   requires inv:    ucInv(u)
+//@   modifies model.File.*, core.Node[model.File].next, core.Node[model.File].prev, core.Node[model.File].link, core.Node[model.File].linkOf, core.Node[model.File].owner, core.Node[model.File].idx,
+//@            core.Node[model.File].inPool, core.List[model.File].elems, core.List[model.File].base, core.file.arr, mem[*core.Node[model.File]]
+//@   ensures  inv:       ucInv(u)
+//@   ensures  unknown:   !has(u.txStore.store, txId) ==> len(result) == 0 && forall l *core.List[model.File] :: l.elems == old(l.elems)
+//@   ensures  collected: has(u.txStore.store, txId) ==> forall k string :: has(u.txStore.store[txId].store, k) ==> collectedF(u.txStore.store[txId].store[k], beforeSeq)
+//@   ensures  others:    forall g *core.file :: old(g.gtx) != nil && old(g.gtx) != &u.allStore && (!has(u.txStore.store, txId) || old(g.gtx) != u.txStore.store[txId]) ==> g.l.elems == old(g.l.elems)
+//@   hint before (*file).PopFront front:  len(f.l.elems) >= 1 && linked(u, f.l.elems[0]) && !f.l.elems[0].inPool && !f.l.elems[0].link.inPool && f.l.elems[0] != f.l.elems[0].link
+//@   hint before (*file).PopFront fok:    fileOk(f) && f.gtx == tx && !f.withoutSearch && tx != &u.allStore
+//@   hint before (*file).PopFront all0:   txInv(&u.allStore)
+//@   hint before (*file).PopFront regs0:  forall id string :: has(u.txStore.store, id) ==> regOk(u, id)
+//@   hint after (*file).PopFront node:    n != nil && toplevel(n) && n.owner == nil && linked(u, n) && !n.inPool && !n.link.inPool && n != n.link
+//@   hint after (*file).PopFront fok:     fileOk(f)
+//@   hint after (*file).PopFront all:     txInv(&u.allStore)
+//@   hint after (*file).PopFront regs:    forall id string :: has(u.txStore.store, id) ==> regOk(u, id)
+//@   hint before (*Node).DeleteLink sep:   has(u.allStore.store, n.v.Key) && u.allStore.store[n.v.Key] != f && &f.l != n.link.owner && n.link.owner == &u.allStore.store[n.v.Key].l
+//@   hint before (*Node).DeleteLink txsep: forall t *core.Transaction :: t != nil && !t.WithoutSearch && txInv(t) ==> forall k string :: has(t.store, k) ==> &t.store[k].l != n.link.owner
+//@   hint after (*Node).DeleteLink fok:    fileOk(f)
+//@   hint after (*Node).DeleteLink all:    txInv(&u.allStore)
+//@   hint after (*Node).DeleteLink regs:   forall id string :: has(u.txStore.store, id) ==> regOk(u, id)
+//@   hint after (*Node).DeleteLink links:  linkInv(u)
+//@   hint after (*Node).DeleteLink seqs:   seqInv()
+//@   hint before (*Pool).Release all1:   txInv(&u.allStore)
+//@   hint before (*Pool).Release regs1:  forall id string :: has(u.txStore.store, id) ==> regOk(u, id)
+//@   hint after (*Pool).Release fok:    fileOk(f)
+//@   hint after (*Pool).Release all:    txInv(&u.allStore)
+//@   hint after (*Pool).Release regs:   forall id string :: has(u.txStore.store, id) ==> regOk(u, id)
+//@   hint after (*Pool).Release links:  linkInv(u)
+//@   hint after (*Pool).Release seqs:   seqInv()
+//@ loop (*UseCase).DeleteOld#1
+//@   invariant inv:       ucInv(u) && tx != nil && has(u.txStore.store, txId) && u.txStore.store[txId] == tx && tx.store == $range
+//@   invariant collected: forall k string :: seen(k) ==> has(tx.store, k) && collectedF(tx.store[k], beforeSeq)
+//@   invariant untouched: forall k string :: has(tx.store, k) && !seen(k) ==> tx.store[k].l.elems == old(tx.store[k].l.elems)
+//@   invariant others:    forall g *core.file :: old(g.gtx) != nil && old(g.gtx) != &u.allStore && old(g.gtx) != tx ==> g.l.elems == old(g.l.elems)
+//@   invariant gtxs:      forall g *core.file :: g.gtx == old(g.gtx)
+//@   invariant values:    forall m *core.Node[model.File] :: m.owner != nil ==> m.v.Seq == old(m.v.Seq) && m.v.Key == old(m.v.Key) && m.v.TxId == old(m.v.TxId) && m.v.ContentId == old(m.v.ContentId)
+//@ loop (*UseCase).DeleteOld>(*file).IterateBeforeSeq$2#1
+//@   invariant jump:      jump$1 == 0
+//@   invariant inv:       ucInv(u) && tx != nil && has(u.txStore.store, txId) && u.txStore.store[txId] == tx && tx.store == $range
+//@   invariant cur:       f != nil && has(tx.store, f.gkey) && tx.store[f.gkey] == f && seen(f.gkey) && seq == beforeSeq
+//@   invariant cursor:    len(f.l.elems) >= 1 && n == f.l.elems[0]
+//@   invariant part:      collectedF(f, beforeSeq)
+//@   invariant collected: forall k string :: seen(k) && k != f.gkey ==> has(tx.store, k) && collectedF(tx.store[k], beforeSeq)
+//@   invariant untouched: forall k string :: has(tx.store, k) && !seen(k) ==> tx.store[k].l.elems == old(tx.store[k].l.elems)
+//@   invariant others:    forall g *core.file :: old(g.gtx) != nil && old(g.gtx) != &u.allStore && old(g.gtx) != tx ==> g.l.elems == old(g.l.elems)
+//@   invariant gtxs:      forall g *core.file :: g.gtx == old(g.gtx)
+//@   invariant values:    forall m *core.Node[model.File] :: m.owner != nil ==> m.v.Seq == old(m.v.Seq) && m.v.Key == old(m.v.Key) && m.v.TxId == old(m.v.TxId) && m.v.ContentId == old(m.v.ContentId)
